@@ -107,8 +107,10 @@ func traceConc(o opts) error {
 		for i := 0; i < nseed; i++ {
 			d.Put(su, names[0], []byte(fmt.Sprintf("seed%d", i)))
 		}
-		seedState, _ := readDisk(path, kek)
-		if nseed == 0 {
+		seedState, serr := readDisk(path, kek)
+		if serr != nil {
+			seedState = "ERR:" + hx(serr.Error())
+		} else if nseed == 0 {
 			seedState = "-"
 		}
 		progs := make([][]dbOp, nthreads)
@@ -155,7 +157,7 @@ func traceConc(o opts) error {
 			progs = make([][]dbOp, 4)
 			for t := 0; t < 4; t++ {
 				for k := 0; k < 3; k++ {
-					progs[t] = append(progs[t], dbOp{aok: 1, sok: true, kind: "put", name: "x", val: []byte(fmt.Sprintf("dup%d", k))})
+					progs[t] = append(progs[t], dbOp{aok: 1, sok: true, kind: "put", name: "x", val: []byte("dup")})
 				}
 			}
 		}
